@@ -222,6 +222,39 @@ fn backend<B: Backend, P: Prims>(opts: &Opts, rep: &mut Report) {
             }
         }
     }
+    // Eq / Ord / Hash on ids that differ in exactly two bytes by the same pattern (differences that cancel
+    // when words are folded with XOR, or when bytes are summed), for every pair of positions
+    if opts.shard == 9 % opts.nshards || opts.only.is_some() {
+        let mut rng = Rng::derive(opts.seed, &stream, 0xe9);
+        let mk = |x: &[u8; 33]| format!("k{}.lid.{}", B::VER, crate::b64::encode(x)).parse::<KeyId<B, Local>>();
+        for round in 0..opts.size(2, 8) {
+            let a: [u8; 33] = rng.arr();
+            let delta = [0x01u8, 0x80, 0xff, 0x5a][round % 4];
+            for i in 0..33usize {
+                for j in (i + 1)..33 {
+                    for mode in 0..2 {
+                        let mut b = a;
+                        if mode == 0 {
+                            b[i] ^= delta;
+                            b[j] ^= delta;
+                        } else {
+                            b[i] = b[i].wrapping_add(delta);
+                            b[j] = b[j].wrapping_sub(delta);
+                        }
+                        if b == a {
+                            continue;
+                        }
+                        let (Ok(ia), Ok(ib)) = (mk(&a), mk(&b)) else { continue };
+                        let ok = ia != ib && !(ia == ib) && ia.cmp(&ib) == a.cmp(&b) && hash_of(&ia) != hash_of(&ib);
+                        if !ok {
+                            rep.violation(&format!("C13|{}|eq-ord-hash-disagree-with-bytes:two-byte-difference", B::NAME), json!({"a": hx(&a), "b": hx(&b), "positions": [i, j], "eq": ia == ib, "cmp": format!("{:?}", ia.cmp(&ib))}));
+                        }
+                        rep.case(&format!("{}.eq-ord-hash.two-byte", B::NAME), fnv_parts(&[&a, &b]), true);
+                    }
+                }
+            }
+        }
+    }
     // Eq / Ord / Hash agree with the 33 bytes
     for _ in 0..opts.size(10000, 200000) {
         idx += 1;
@@ -395,7 +428,7 @@ pub fn run(opts: &Opts) {
     }
     rep.set(
         "rule",
-        json!("thousands of generated keys per backend (tens of RSA keys): lid/sid/pid compared with the reference digest (other primitive family) of 'kN.xid.' || canonical PASERK text - both of the library's serialisation and of an encoding of the same key derived without the library (public half from the secret by the other family; v1: an independent DER writer) -, checked stable across clone / text / raw round-trips (v1: PEM vs DER), pairwise distinct for related keys (incl. a local key whose bytes equal the public key), text round-trip; id strings of every decoded length 0..70; 10^4 id pairs (equal, last-bit, one-byte, random) for Eq/Ord/Hash against the bytes; sibling backends compared; keys supplied in unusual accepted encodings (non-canonical Ed25519 y, x = 0 with sign bit, small order, boundary scalars): id = digest of the text as supplied (v1: of the canonical DER when PEM or a DER with other CRT integers is supplied), equal across siblings; distinct = distinct keys / strings / pairs"),
+        json!("thousands of generated keys per backend (tens of RSA keys): lid/sid/pid compared with the reference digest (other primitive family) of 'kN.xid.' || canonical PASERK text - both of the library's serialisation and of an encoding of the same key derived without the library (public half from the secret by the other family; v1: an independent DER writer) -, checked stable across clone / text / raw round-trips (v1: PEM vs DER), pairwise distinct for related keys (incl. a local key whose bytes equal the public key), text round-trip; id strings of every decoded length 0..70; 10^4 id pairs (equal, last-bit, one-byte, random) and every pair of positions changed by the same XOR / +- pattern for Eq/Ord/Hash against the bytes; sibling backends compared; keys supplied in unusual accepted encodings (non-canonical Ed25519 y, x = 0 with sign bit, small order, boundary scalars): id = digest of the text as supplied (v1: of the canonical DER when PEM or a DER with other CRT integers is supplied), equal across siblings; distinct = distinct keys / strings / pairs"),
     );
     rep.finish(opts);
 }
